@@ -39,6 +39,11 @@ func (e *CachedEntityBase[SnapT, OpT]) notifyUpdated() error {
 func (e *CachedEntityBase[SnapT, OpT]) ResolveOperationWithMetadata(key string, value string) (entity.Id, error) {
 	e.mu.RLock()
 	defer e.mu.RUnlock()
+
+	// What a SetMetadata operation attaches to an earlier operation is on that operation only once the
+	// operations have been applied: an entity just read from git has to be compiled first.
+	e.entity.Compile()
+
 	// preallocate but empty
 	matching := make([]entity.Id, 0, 5)
 
